@@ -54,6 +54,22 @@ impl XmlConverter {
         }
     }
 
+    /// Text, attribute values and namespace uris can only hold characters
+    /// that are legal in an xml document. Escaping does not help for the rest.
+    fn check_chars(s: &str) -> std::result::Result<&str, Box<dyn Error>> {
+        let is_xml_char = |c: char| {
+            matches!(c, '\u{9}' | '\u{A}' | '\u{D}' | '\u{20}'..='\u{D7FF}' | '\u{E000}'..='\u{FFFD}' | '\u{10000}'..='\u{10FFFF}')
+        };
+        match s.chars().find(|c| !is_xml_char(*c)) {
+            Some(c) => Err(BuildError::new(
+                format!("The character U+{:04X} can not be represented in XML", c as u32),
+                ErrorType::TypeFail,
+            )
+            .to_boxed()),
+            None => Ok(s),
+        }
+    }
+
     fn write_node<W: std::io::Write>(&self, v: &Val, w: &mut EventWriter<W>) -> ConvertResult {
         // First we determine if this is a tag or text node
         if let Val::Tuple(fs) = v {
@@ -119,13 +135,16 @@ impl XmlConverter {
                         if val.is_empty() {
                             continue;
                         }
-                        start = start.attr(name.as_ref(), Self::get_str_val(val.as_ref())?);
+                        start = start.attr(
+                            name.as_ref(),
+                            Self::check_chars(Self::get_str_val(val.as_ref())?)?,
+                        );
                     }
                 }
                 if let Some((prefix, uri)) = ns {
                     // The xml writer emits namespace uris verbatim, unlike
                     // attribute values, so we have to escape them ourselves.
-                    let uri = xml::escape::escape_str_attribute(uri).into_owned();
+                    let uri = xml::escape::escape_str_attribute(Self::check_chars(uri)?).into_owned();
                     if prefix.is_empty() {
                         start = start.default_ns(uri);
                     } else {
@@ -141,10 +160,10 @@ impl XmlConverter {
                 w.write(XmlEvent::end_element())?;
             }
             if let Some(text) = text {
-                w.write(XmlEvent::characters(text))?;
+                w.write(XmlEvent::characters(Self::check_chars(text)?))?;
             }
         } else if let Val::Str(s) = v {
-            w.write(XmlEvent::characters(s.as_ref()))?;
+            w.write(XmlEvent::characters(Self::check_chars(s.as_ref())?))?;
         } else {
             return Err(BuildError::new(
                 "XML nodes must be a Tuple or a string",
